@@ -448,7 +448,9 @@ fn tier_cfg(tier: &str) -> GenCfg {
 fn plan_run(seed: u64, idx: u64, tier: &str) -> RunPlan {
     let mut rng = Rng::derive(seed, idx, 16);
     let cfg = tier_cfg(tier);
-    let w = if rng.chance(1, 4) {
+    let w = if rng.chance(1, 16) {
+        gen_crash_workload(&mut rng)
+    } else if rng.chance(1, 4) {
         let nthreads = 2 + rng.usize_below(cfg.max_threads - 1);
         let phases = 1 + rng.usize_below(cfg.max_calls);
         gen_phased_workload(&mut rng, nthreads, phases)
